@@ -240,25 +240,27 @@ type vC03LenPlan struct {
 	prefix netip.Prefix
 }
 
-// preimage lengths on both sides of 192 (the wire hasher's chunk) and 256 (the pooled buffer of the
-// presentation-side functions), each with no scope, a v4 and a v6 scope in turn (all three in the thorough tier)
+// preimage lengths on both sides of 192 (the wire hasher's chunk; scope kinds in turn) and of 256 (the pooled
+// buffer of the presentation-side functions): without a scope every length from 249 to 264 (the name alone
+// crosses 251 = buffer minus header), with a v4 and with a v6 scope every length from 254 to 263 (name and
+// scope tail cross the boundary at different name lengths); the thorough tier runs every combination
 func vC03LenPlans(seed int64, thorough bool) []vC03LenPlan {
 	prefixes := []netip.Prefix{{}, netip.MustParsePrefix("198.51.0.0/16"), netip.MustParsePrefix("2001:db8:12:3400::/56")}
-	var totals []int
-	for t := 190; t <= 194; t++ {
-		totals = append(totals, t)
-	}
-	for t := 249; t <= 264; t++ {
-		totals = append(totals, t)
-	}
 	var out []vC03LenPlan
-	for _, t := range totals {
+	for t := 190; t <= 194; t++ {
 		if thorough {
 			for _, p := range prefixes {
 				out = append(out, vC03LenPlan{t, p})
 			}
 		} else {
 			out = append(out, vC03LenPlan{t, prefixes[(t+int(seed))%3]})
+		}
+	}
+	for t := 249; t <= 264; t++ {
+		for i, p := range prefixes {
+			if i == 0 || thorough || (t >= 254 && t <= 263) {
+				out = append(out, vC03LenPlan{t, p})
+			}
 		}
 	}
 	return out
